@@ -524,7 +524,7 @@ def gen(args):
     rng = np.random.default_rng([sd, 909])
     dataA, dataB, dataC = make_data(rng, "A"), make_data(rng, "B"), make_data(rng, "C")
     out = []
-    for (kind, name, hist, layout, tag) in jobs:
+    for (kind, name, hist, layout, tag) in core.timed(jobs):
         if kind == "est":
             out.append(est_trace(tag, name, cat[name], hist, dataA, dataB, layout, dataC))
         else:
